@@ -213,6 +213,53 @@ def run_blocked(case) -> dict:
     return {"problems": probs, "frames": len(st.frames)}
 
 
+def run_blocked_during_detection(case) -> dict:
+    """The same blocked-thread extraction, made while ANOTHER thread is inside the library's one-off self-test of the bytecode
+    analysis (the very first extraction of a process, here forced again with set_trickery_enabled(None)): the result is exact all
+    the same -- the asker waits for the verdict, it never acts on a provisional one."""
+    import stackscope
+    from stackscope import _lowlevel as L
+
+    L.set_trickery_enabled(None)
+    in_detect, go = threading.Event(), threading.Event()
+    orig = L._contexts_active_by_trickery
+    first = [True]
+
+    def slow(frame):
+        if first[0] and threading.current_thread().name == "detector":
+            first[0] = False
+            in_detect.set()
+            go.wait(5)
+        return orig(frame)
+
+    def gen():
+        yield
+
+    g = gen()
+    next(g)
+    L._contexts_active_by_trickery = slow
+    box: Dict[str, Any] = {}
+    try:
+        a = threading.Thread(target=lambda: stackscope.extract(g), name="detector", daemon=True)
+        a.start()
+        if not in_detect.wait(3):
+            go.set()
+            a.join(5)
+            return {"problems": ["the self-test window could not be opened"], "frames": 0}
+        x = threading.Thread(target=lambda: box.update(r=run_blocked(dict(case, during_detection=False))), daemon=True)
+        x.start()
+        x.join(0.4)
+        go.set()
+        a.join(10)
+        x.join(20)
+    finally:
+        L._contexts_active_by_trickery = orig
+        L.set_trickery_enabled(None)
+    r = box.get("r") or {"problems": ["the extraction made during the self-test did not finish"], "frames": 0}
+    r["problems"] = [p + " [extraction made while another thread was inside the analysis self-test]" for p in r["problems"]]
+    return r
+
+
 def worker(schedules: List[dict], timeout=120) -> List[dict]:
     env = dict(os.environ, PYTHONPATH=f"{REPO}:{VERIF}", STACKSCOPE_VERIF="1")
     p = subprocess.run([PY, "-m", "harness.c07_worker"], input=json.dumps({"schedules": schedules}), stdout=subprocess.PIPE,
@@ -280,6 +327,8 @@ class C07(PropCheck):
         for depth in range(0, 7 if tier == "thorough" else 5):
             for _ in range(2 if tier == "quick" else 6):
                 out.append({"k": "blocked", "depth": depth, "nest": [rng.randint(0, 3) for _ in range(depth + 1)], "leaf": len(out) % 9})
+                if len(out) % 4 == 1:
+                    out.append(dict(out[-1], during_detection=True, nest=[max(1, x) for x in out[-1]["nest"]]))
         scheds: List[dict] = [{}]
         for r in range(0, 14):
             for a in range(1, 5):
@@ -301,7 +350,10 @@ class C07(PropCheck):
     def run_real(self, case):
         self._probs: List[str] = []
         if case["k"] == "blocked":
-            r = run_blocked(case)
+            if case.get("during_detection"):
+                r = run_blocked_during_detection(case)
+            else:
+                r = run_blocked(case)
             self._probs = r["problems"]
             return json.dumps(r)
         if case["k"] == "racing":
